@@ -534,3 +534,38 @@ H("c16_cached_proposal_keeps_sender", "c16_cached.rs", ["C16"], "quick", unwind=
   what="a proposal stored outside the observer keeps its sender: wire Sender -> ProposalSender -> cached_proposal() is the identity for member / external / "
        "new-member-proposal senders and every index; new_member_commit is not a proposal sender", symbolic="sender kind, index any u32, proposal ref byte",
   bounds="Remove proposal")
+
+
+# ---- final wording of claims / outside-the-bound notes (overrides earlier drafts)
+OUTSIDE["C13"] = ("the primitives themselves (uninterpreted: the claim holds for every hash/KDF/MAC that is a function; collisions ignored); secrets longer than "
+                  "Nh = 2 bytes; len > 65535; contexts beyond the listed sizes; SecretTree::new's map insertion in the epoch harnesses (cut by a stub) and every "
+                  "secret-tree node below the root (BTreeMap traffic does not terminate); transcript / membership tag for COMMIT content (900 s timeout); PSK chain "
+                  "with a resumption id (19 GB); out-of-order generations")
+OUTSIDE["C18"] = ("which members reach the epoch end to end, PSK admission rules in the proposal filter, joiners, the prior-epoch repository branch of the resolver "
+                  "(absent in the harness), PSK chain with a resumption id (19 GB) and lists longer than 2")
+OUTSIDE["C16"] = ("the observer tracking roster / tree / context over histories, proposals it issues, snapshot/restore, signature and proposal-rule checks "
+                  "(whole-program; Group-sized state); byte-level round trip of cached proposals (decode of Proposal: 19 GB)")
+OUTSIDE["C12"] = ("buffers longer than the stated bound B per harness (<= 17 bytes); collections with more entries than fit in B; nested Vec<Vec<u8>> decode-any "
+                  "(19 GB at B = 3); whole MlsMessage / GroupInfo / Welcome / Commit / Proposal / UpdatePath / snapshot values (timeouts / 20 GB); ExtensionList and "
+                  "every type holding a BTreeMap/HashMap; allocation requests other than Vec::with_capacity (reserve, vec![..; n]) in the allocation-bound harnesses")
+CLAIMS["C13"]["text"] = ("Dataflow equality with the RFC 9420 formulas, decided by the solver with the primitives uninterpreted (fresh symbolic output per call): KDFLabel "
+                         "encoding incl. varint boundaries; the whole epoch derivation chain on the committer and joiner side (joiner, epoch secret, the nine derived secrets; "
+                         "SecretTree::new cut by a stub); ratchet step for EVERY generation; ratchet initialisation; welcome key/nonce; path secrets; sender-data key; exporter "
+                         "incl. the empty context; confirmed/interim transcript hash, confirmation tag and membership tag for application content; PSK chain (via C18). Holds for "
+                         "every hash/KDF/MAC that is a function.")
+CLAIMS["C18"]["text"] = ("Two kernels: (1) the PSK secret chain takes every PSK's value, id, nonce, index and count in list order, for 0, 1 and 2 external PSKs (dataflow, primitives "
+                         "uninterpreted); (2) PSK resolution for a mixed [resumption, external] list in both orders: succeeds iff the external PSK is stored and the resumption id names "
+                         "this group and epoch, values from the right source in list order, else the commit is refused. Who reaches the epoch end to end is outside.")
+CLAIMS["C16"]["text"] = ("Bounded model checking of the observer's admission gate for EVERY (epoch, jitter, message epoch, version, group id byte, content type, wire format): no panic, "
+                         "exact epoch window (found and fixed the jitter > epoch underflow); externally cached proposals keep their sender. Tracking of public state over histories is outside.")
+CLAIMS["C12"]["text"] = ("Bounded model checking of mls-rs-codec and of derive-generated / hand-written codecs of 25 mls-rs wire types in both `preallocate` configurations: decode of EVERY "
+                         "byte string up to B bytes (B per harness, 2..17) returns without panic, an accepted value re-encodes to exactly the bytes consumed with mls_encoded_len equal to "
+                         "that count; no decoder requests an allocation beyond a fixed multiple of the input; round trips for all values of fixed shapes; varints over all of u32.")
+CLAIMS["C02"]["text"] = ("Bounded model checking of the removal kernel (blank leaf + blank direct path) on every occupancy of a 4-leaf-slot tree, every removed position, indices outside "
+                         "the tree, and on a trimmed 16-leaf-slot vector: the removed key's slot and all its existing ancestors are blank, nothing else changes. The recipient clause "
+                         "(HPKE only to copath resolutions) is outside.")
+CLAIMS["C19"]["text"] = ("Bounded model checking of the in-memory provider's retention window for symbolic epoch ids (K <= 5 inserts, R <= 3) and of the prior-epoch sender-key check for "
+                         "every occupancy / key assignment of 4-, 3- and 2-leaf trees (tree shrunk since the old epoch included) and ANY u32 sender index. The repository lookup chain is outside.")
+CLAIMS["C03"]["text"] = ("Kernels only: admission gate (version / group id / epoch / encryption) for all inputs; AAD layouts bind every clear field; zero-padding check; padded sizes; sender-data "
+                         "sample; membership-tag input; exact equality of confirmation tags, membership tags and parent hashes. Not a claim about forgery resistance end to end; update-path "
+                         "validation and decapsulation are outside (a genuine defect there was found by reading and repaired, see DESIGN 9.5).")
